@@ -192,6 +192,15 @@ func c09BGen(t *rapid.T) C09BCase {
 }
 
 func c09BRun(c C09BCase, st *kit.Stats) error {
+	stalls := kit.Stalls.Load()
+	err := c09BRunInner(c, st)
+	if err == nil {
+		err = kit.StallError(stalls)
+	}
+	return err
+}
+
+func c09BRunInner(c C09BCase, st *kit.Stats) error {
 	emu := kit.StartEmu("")
 	defer emu.Stop()
 	tc := emu.Dial()
